@@ -18,8 +18,8 @@ CONSTANTS
   OutlineDepthLimit = 5
   NameTreeDepthLimit = 5
   ChainLens = {1, 2, 3, 4, 5, 6, 7, 8, 9, 10, 12, 16, 24}
-  Emit = TRUE
-  Scen = {"chain", "deref", "cont", "rsrc", "links", "dest", "kids", "names", "img", "toc", "pages"}
-INVARIANTS ChainOK StackOK PcOK Bounded RsrcDepth EmitInv
+  Emit = FALSE
+  Scen = {"chain"}
+INVARIANTS PcOK StackOK TotalInv
 
 CHECK_DEADLOCK FALSE
